@@ -3,7 +3,7 @@
    Model/Engines.v (entry points, .aux files, READ) over Model/Bst.v (the interpreter) and
    Model/Citations.v (citation resolution). *)
 From Pybtex Require Import Base.Prelude Base.PyChar Base.PyStr Model.BibtexStr Model.Wrap Model.Bst Model.Citations Model.Engines
-  Proofs.EnginesSort Proofs.Engines Proofs.EnginesExec Proofs.EnginesMeta Proofs.EnginesOrder Proofs.EnginesProbe Proofs.EnginesAux Proofs.EnginesItems.
+  Proofs.EnginesSort Proofs.Engines Proofs.EnginesExec Proofs.EnginesMeta Proofs.EnginesOrder Proofs.EnginesProbe Proofs.EnginesAux Proofs.EnginesItems Proofs.EnginesCli.
 From Pybtex Require Model.Aux.
 From Coq Require Import Permutation Sorted.
 
@@ -68,6 +68,50 @@ Theorem aux_equals_explicit_real_reader : forall fmt_name cw fuel fs afs aux sty
   end.
 Proof. exact make_bibliography_real_reader. Qed.
 Print Assumptions aux_equals_explicit_real_reader.
+
+(* The command line `pybtex OPTIONS FILE` (options -s/--style, -f, --min-crossrefs, --terse, each possibly several
+   times: the last occurrence counts) is make_bibliography on FILE -- with '.aux' appended exactly when
+   posixpath.splitext does not already give that extension -- with the style, format and min_crossrefs the options
+   spell (default min_crossrefs 2) ... *)
+Theorem command_line_is_make_bibliography : forall fmt_name cw fuel fs opts filename,
+  command_line_argv fmt_name cw fuel fs opts filename =
+  make_bibliography fmt_name cw fuel fs (cli_aux_name filename) (cli_style opts) (cli_format opts)
+                    (match cli_min_crossrefs opts with Some m => m | None => 2%Z end).
+Proof. exact command_line_argv_is. Qed.
+Print Assumptions command_line_is_make_bibliography.
+Theorem cli_aux_name_appends_unless_aux : forall f,
+  f = splitext_root f ++ splitext_ext f /\
+  (splitext_ext f = s_aux -> cli_aux_name f = f) /\ (splitext_ext f <> s_aux -> cli_aux_name f = f ++ s_aux).
+Proof. exact cli_aux_name_full_spec. Qed.
+Print Assumptions cli_aux_name_appends_unless_aux.
+Theorem cli_last_option_counts : forall opts rest,
+  (forall s, cli_style rest = None -> cli_style (opts ++ OptStyle s :: rest) = Some s) /\
+  (forall f, cli_format rest = None -> cli_format (opts ++ OptFormat f :: rest) = Some f) /\
+  (forall m, cli_min_crossrefs rest = None -> cli_min_crossrefs (opts ++ OptMinCrossrefs m :: rest) = Some m) /\
+  ((forall s, ~ In (OptStyle s) opts) -> cli_style opts = None).
+Proof. exact cli_last_option_lemma. Qed.
+Print Assumptions cli_last_option_counts.
+(* ... hence the explicit engine call; in particular with `-s S` as the last style option the style handed to
+   format_from_files is S itself, whatever characters it contains (the clause the seeded defect C06n broke:
+   'house.sorted' must not become 'house') *)
+Theorem command_line_style_handed_on_unchanged : forall fmt_name cw fuel fs opts rest s filename ad data,
+  cli_style rest = None ->
+  let o := opts ++ OptStyle s :: rest in
+  let aux := cli_aux_name filename in
+  let m := match cli_min_crossrefs o with Some m => m | None => 2%Z end in
+  aux_parse_file aux_depth fs aux = Ok ad -> ax_data ad = Some data ->
+  let fmt := match cli_format o with Some f => f | None => 0 end in
+  match format_from_files fmt_name cw fuel fs (map (fun n => BName (n ++ suffix_of fmt)) data) s
+                          (Some (ax_cites ad)) (cli_format o) m None false with
+  | Ok r => exists bbl, r = mkOut fs (Some bbl) (o_reports r) /\
+            command_line_argv fmt_name cw fuel fs o filename =
+            Ok (mkOut (fs_write fs (splitext_root aux ++ s_bbl) bbl) None (ax_reports ad + o_reports r))
+  | PyErr c l => command_line_argv fmt_name cw fuel fs o filename = PyErr c l
+  | Crash => command_line_argv fmt_name cw fuel fs o filename = Crash
+  | OutOfFuel => command_line_argv fmt_name cw fuel fs o filename = OutOfFuel
+  end.
+Proof. exact command_line_style_unchanged. Qed.
+Print Assumptions command_line_style_handed_on_unchanged.
 
 (* What an .aux file (without \@input) says: its citations are the comma-separated pieces of its
    \citation lines, in order; its style / database names those of the FIRST \bibstyle / \bibdata line. *)
@@ -320,6 +364,22 @@ Proof.
   right. exists (S_ "output.bibitem"). eexists. eexists. split; [reflexivity|]. split; [reflexivity|].
   left. exists [IId (S_ "newline$")], (S_ "\bibitem{"), [], [IStr (S_ "}"); IId (S_ "write$")]. split; reflexivity.
 Qed.
+
+(* a dotted style name on the command line: house.sorted.bst (reversed titles) is used, not house.bst (keys);
+   'doc' gets '.aux', 'my.doc.aux' keeps its name *)
+Definition ex_cli_fs : fsys :=
+  (S_ "house.sorted.bst", FBst ex_style2) :: (S_ "house.bst", FBst ex_style) ::
+  (S_ "my.doc.aux", FAux [S_ "\citation{a}"; S_ "\bibstyle{house}"; S_ "\bibdata{db}"]) :: ex_fs.
+Example command_line_dotted_style_example :
+  option_map written_text (match command_line_argv nofmt nocw 100 ex_cli_fs [OptStyle (S_ "house"); OptTerse; OptStyle (S_ "house.sorted")] (S_ "doc") with Ok o => Some o | _ => None end)
+    = Some [(S_ "doc.bbl", S_ "Ta
+Tb
+")] /\
+  option_map written_text (match command_line_argv nofmt nocw 100 ex_cli_fs [OptMinCrossrefs 1] (S_ "my.doc.aux") with Ok o => Some o | _ => None end)
+    = Some [(S_ "my.doc.bbl", S_ "a
+")] /\
+  cli_aux_name (S_ "doc") = S_ "doc.aux" /\ cli_aux_name (S_ "my.doc") = S_ "my.doc.aux" /\ cli_aux_name (S_ "my.doc.aux") = S_ "my.doc.aux".
+Proof. vm_compute. repeat split. Qed.
 
 Example uncited_example :
   never_wanted [nth 0 ex_db (mkB [] [] []); nth 2 ex_db (mkB [] [] [])] [S_ "b"; S_ "a"] (S_ "u") /\
